@@ -115,7 +115,7 @@ Definition parse_exact (s : bytes) : option (Z * Z) :=
 (* arithmetic coercion of a string (vm.go, LVAsNumber, ...) is parseNumber itself *)
 Definition coerce (s : bytes) : option (Z * Z) := parse_exact s.
 
-(* ---------- impl: strconv.ParseInt(s, base, 64) for 2 <= base <= 36 ---------- *)
+(* ---------- impl: the digits of an integer in base 2..36 ---------- *)
 Definition radix_digit (c : Z) : option Z :=
   if is_digit c then Some (c - 48)
   else if (97 <=? c) && (c <=? 122) then Some (c - 87)
@@ -131,23 +131,29 @@ Fixpoint radix_val (b : Z) (s : bytes) (acc : Z) : option Z :=
               end
   end.
 
-Definition go_parse_int (s : bytes) (b : Z) : option Z :=
-  if negb ((2 <=? b) && (b <=? 36)) then None else
+(* parseRadix (baselib.go): optional sign; for base 16 an optional 0x/0X when something follows it;
+   then at least one character, not a sign; strconv.ParseUint / big.Int.SetString read the digits
+   (no prefix, no underscore for an explicit base); the integer is exact, of any size *)
+Definition parse_radix (s : bytes) (b : Z) : option Z :=
   let '(k, u) := strip_sign s in
-  match u with
+  let u' := match u with
+            | c0 :: c1 :: ((_ :: _) as r) => if (b =? 16) && (c0 =? 48) && is_x c1 then r else u
+            | _ => u
+            end in
+  match u' with
   | [] => None
-  | _ => match radix_val b u 0 with
-         | Some n => if k =? 1 then (if n <? 2 ^ 63 then Some n else None)
-                     else (if n <=? 2 ^ 63 then Some (- n) else None)
-         | None => None
-         end
+  | c :: _ => if is_pm c then None else
+              match radix_val b u' 0 with Some n => Some (k * n) | None => None end
   end.
 
-(* ---------- impl: baseToNumber on a string argument ---------- *)
+(* L.ArgError(2, "base out of range") unless this holds *)
+Definition base_ok (b : Z) : bool := (2 <=? b) && (b <=? 36).
+
+(* ---------- impl: baseToNumber on a string argument, for a base that passed base_ok ---------- *)
 Definition tonumber (s : bytes) (ob : option Z) : option (Z * Z) :=
   let base := match ob with Some b => b | None => 10 end in
   if base =? 10 then parse_exact s
-  else match go_parse_int (trim_space s) base with Some z => Some (z, 0) | None => None end.
+  else match parse_radix (trim_space s) base with Some z => Some (z, 0) | None => None end.
 
 (* ---------- impl: scanNumber ---------- *)
 (* ch is the first character (a digit, or '.' when a digit follows), s what follows it.
@@ -219,7 +225,7 @@ Inductive Numeral : bytes -> Z -> Z -> Prop :=
 | Num : forall l sg k u m e t, blanks l -> blanks t -> SignOpt sg k -> Unsigned u m e ->
         Numeral (l ++ sg ++ u ++ t) (k * m) e.
 
-(* an integer written in base b: blanks, optional sign, digits below b, blanks *)
+(* an integer written in base b: blanks, optional sign, (base 16: optional 0x), digits below b, blanks *)
 Definition radix_digits (b : Z) (ds : bytes) : Prop :=
   forallb (fun c => match radix_digit c with Some d => d <? b | None => false end) ds = true.
 Fixpoint radix_value (b : Z) (ds : bytes) (acc : Z) : Z :=
@@ -227,6 +233,11 @@ Fixpoint radix_value (b : Z) (ds : bytes) (acc : Z) : Z :=
   | [] => acc
   | c :: r => radix_value b r (acc * b + match radix_digit c with Some d => d | None => 0 end)
   end.
+(* for base 16 the digits may be preceded by 0x or 0X (C's strtoul) *)
+Inductive RadixPrefix (b : Z) : bytes -> Prop :=
+| RPNone : RadixPrefix b []
+| RPHex : forall x, b = 16 -> is_x x = true -> RadixPrefix b [48; x].
 Inductive RadixNumeral (b : Z) : bytes -> Z -> Prop :=
-| Radix : forall l sg k ds t, blanks l -> blanks t -> SignOpt sg k -> radix_digits b ds -> ds <> [] ->
-          RadixNumeral b (l ++ sg ++ ds ++ t) (k * radix_value b ds 0).
+| Radix : forall l sg k px ds t, blanks l -> blanks t -> SignOpt sg k -> RadixPrefix b px ->
+          radix_digits b ds -> ds <> [] ->
+          RadixNumeral b (l ++ sg ++ px ++ ds ++ t) (k * radix_value b ds 0).
